@@ -483,6 +483,9 @@ impl Ctx {
                 bad!(self, "[drain] a header was destroyed {} time(s) by the time every handle is gone", drops.get(&b.hid).unwrap_or(&0));
             }
         }
+        if alloc::overruns() > 0 {
+            bad!(self, "[overrun] {} block(s) were written past their end (red zone damaged)", alloc::overruns());
+        }
         for r in alloc::table() {
             if r.live || r.frees != 1 {
                 bad!(self, "[drain] allocation of {} bytes (align {}) released {} time(s) by the time every handle is gone", r.size, r.align, r.frees);
